@@ -226,18 +226,19 @@ Definition into_con (n : node) : option con :=
   | NAry ns => Some (KAry NNil ns)
   end.
 
-(* put a (possibly updated) child container back where get found it *)
+(* put a (possibly updated) child container back where get found it.  The node for the empty
+   token is handed out fresh on every get (fix 1ccc25a): what is done to it is not kept *)
 Definition con_put (o : opts) (c : con) (key : bytes) (ch : node) : con :=
   match c with
   | KDoc self keys obj =>
       match key with
-      | [] => KDoc ch keys obj
+      | [] => c
       | _ => KDoc self keys (aset key ch obj)
       end
-  | KDocNil self st => match key with [] => KDocNil ch st | _ => c end
+  | KDocNil self st => c
   | KAry self ns =>
       match key with
-      | [] => KAry ch ns
+      | [] => c
       | _ => match resolve_idx_get o (zlen ns) key with
              | Ok i => KAry self (firstn i ns ++ ch :: skipn (S i) ns)
              | _ => c
@@ -545,6 +546,12 @@ Definition deep_copy (o : opts) (n : node) : node * Z :=
        end)
   end.
 
+Definition copy_too_deep (o : opts) (n : node) : bool :=
+  match n with
+  | NNil => false
+  | _ => (max_depth <? tdepth (render (o_esc o) n))%N
+  end.
+
 Definition root_node (r : root) : node :=
   match r with
   | RCon c => node_of_con c
@@ -766,6 +773,10 @@ Definition op_copy (o : opts) (st : state) (op : operation) : res state :=
                         end in
                       match src with
                       | Ok v =>
+                          (* deepCopy refuses a value whose encoding nests deeper than the decoder
+                             accepts (fix dc05ac4): it would be stored raw and parsed lazily by a
+                             decoder that assumes valid input *)
+                          if copy_too_deep o v then Err EInvalid else
                           let (cp, sz) := deep_copy o v in
                           let acc := (s_acc st + sz)%Z in
                           if (0 <? o_limit o)%Z && (o_limit o <? acc)%Z then Err (ECopyLimit (o_limit o) acc)
